@@ -66,6 +66,9 @@ pub enum OpKind {
     /// validate, clone, edit the clone in place (public fields), validate the clone through
     /// every direct entry point, and validate the same edit applied to a never-validated copy
     CloneEdit,
+    /// validate_mt on the subject's text inside the caller thread's LONG-LIVED dataflow Message
+    /// (same source and target fields every time): a pipeline message that is validated again
+    PluginReuse,
 }
 
 #[derive(Serialize, Deserialize, Clone, Debug, PartialEq)]
@@ -190,7 +193,7 @@ pub fn apply_op(g: &mut Value, op: &MutOp) -> bool {
             match get_mut(g, par) {
                 Some(Value::Array(a)) if i < a.len() => {
                     let e = a[i].clone();
-                    for _ in 0..(*times).min(16) {
+                    for _ in 0..(*times).min(140) {
                         a.insert(i, e.clone());
                     }
                     true
@@ -269,7 +272,9 @@ fn propose(g: &Value, donor: &Value, donor2: &Value, vocab: &[String], r: &mut S
             if cand.is_empty() {
                 return None;
             }
-            Some(MutOp::DupN { path: cand[r.below(cand.len())].0.clone(), times: 8 + r.below(5) })
+            // mostly just past a "not more than ten" limit; sometimes a batch of a hundred and more
+            let times = if r.chance(1, 6) { 100 + r.below(30) } else { 8 + r.below(5) };
+            Some(MutOp::DupN { path: cand[r.below(cand.len())].0.clone(), times })
         }
         11 | 12 => {
             // cross-type donor: a field object under a key this type's scenarios may never carry
@@ -520,9 +525,21 @@ fn exec_clone_edit(s: &Subject, donor: &Subject, how: u64) -> OpResult {
     OpResult::Edited { applied, full: full_v, full_codes, stop: stop_v, valid: (v.is_valid, v.errors.len()), pristine_full: pf_v, pristine_codes: pf_codes }
 }
 
+fn exec_plugin_reuse(s: &Subject, msg: &mut Message) -> OpResult {
+    msg.data_mut()["mt"] = Value::String(s.text.clone());
+    msg.invalidate_context_cache();
+    let cfg = FunctionConfig::Custom { name: "validate_mt".into(), input: json!({"source": "mt", "target": "vr"}) };
+    let h = swift_mt_message::plugin::Validate;
+    match block_on(h.execute(msg, &cfg, Arc::new(datalogic_rs::DataLogic::new()))) {
+        Ok((r, polls)) => OpResult::Plugin { out: msg.data().get("vr").cloned().unwrap_or(Value::Null), exec_err: r.err().map(|e| format!("{e:?}")), polls },
+        Err(e) => OpResult::Harness(e),
+    }
+}
+
 fn exec_op(kind: OpKind, s: &Subject) -> OpResult {
     match kind {
         OpKind::CloneEdit => OpResult::Harness("CloneEdit needs a donor".into()),
+        OpKind::PluginReuse => OpResult::Harness("PluginReuse needs the caller's message".into()),
         OpKind::VnrFull => errs_to_values(&mt::vnr(&s.parsed, false)),
         OpKind::VnrStop => errs_to_values(&mt::vnr(&s.parsed, true)),
         OpKind::SwiftValidate => vres(mt::swift_validate(&s.parsed)),
@@ -691,7 +708,7 @@ impl History {
                             _ => {}
                         }
                     }
-                    (OpKind::PluginDirect | OpKind::PluginEngine, OpResult::Plugin { out, exec_err, .. }) => {
+                    (OpKind::PluginDirect | OpKind::PluginEngine | OpKind::PluginReuse, OpResult::Plugin { out, exec_err, .. }) => {
                         if let Some(e) = exec_err {
                             return Some(viol(format!("C13/I5 {mt} plugin execution fails on a parseable message"), format!("operation {seq} on subject {m}: {e}")));
                         }
@@ -791,10 +808,14 @@ fn run_phase(ctx: &Arc<seam::RunCtx>, e_h: u64, subjects: &Arc<Vec<Subject>>, ca
         resp_rx.push(rrx);
         handles.push(std::thread::spawn(move || {
             let _a = seam::attach(&ctx_c);
+            let mut long_lived: Option<Message> = None;
             while let Ok(Some((kind, m, aux))) = rx.recv() {
                 let r = std::panic::catch_unwind(std::panic::AssertUnwindSafe(|| {
                     with_diag(diag, || {
-                        if kind == OpKind::CloneEdit {
+                        if kind == OpKind::PluginReuse {
+                            let msg = long_lived.get_or_insert_with(|| Message::from_value(&json!({})));
+                            exec_plugin_reuse(&subs[m], msg)
+                        } else if kind == OpKind::CloneEdit {
                             exec_clone_edit(&subs[m], &subs[(aux as usize / 8) % subs.len()], aux % 8)
                         } else {
                             exec_op(kind, &subs[m])
@@ -895,7 +916,7 @@ impl Engine for C13 {
         for _ in 0..n_ops {
             let kind = *s.pick(&[
                 OpKind::VnrFull, OpKind::VnrFull, OpKind::VnrFull, OpKind::VnrStop, OpKind::VnrStop, OpKind::VnrStop, OpKind::SwiftValidate, OpKind::SwiftValidate, OpKind::ParsedValidate, OpKind::ParsedValidate, OpKind::PluginDirect,
-                OpKind::PluginDirect, OpKind::PluginEngine, OpKind::CloneVnr, OpKind::Snapshot, OpKind::CloneEdit,
+                OpKind::PluginDirect, OpKind::PluginEngine, OpKind::CloneVnr, OpKind::Snapshot, OpKind::CloneEdit, OpKind::PluginReuse, OpKind::PluginReuse,
             ]);
             let jump_ns = if s.chance(1, 5) {
                 let d = *cr.pick(&[seam::NS, 3600 * seam::NS, seam::DAY_NS, 40 * seam::DAY_NS, 400 * seam::DAY_NS]);
